@@ -12,16 +12,42 @@ from .ref.mpt import BLANK_ROOT, RefTrie
 from .util import Abort, Raised, abort_exception, cm_enter, cm_exit, expect, expect_eq, impl, nibbles_of
 
 
-def apply_simple(trie, model, op, allowed=()):
+def apply_look(trie, model, op, prev=None):
+    """An explicit single lookup in one spelling, compared with the model."""
+    key = resolve_key(op[1], sorted(model), prev.get(None) if prev else None)
+    want = model.get(key, b"")
+    sp = op[2]
+    if sp == 0:
+        expect_eq("get-returns-latest", impl("lookup-never-raises", trie.get, key), want, f"get({key!r})")
+    elif sp == 1:
+        expect_eq("getitem-returns-latest", impl("lookup-never-raises", trie.__getitem__, key), want, f"trie[{key!r}]")
+    elif sp == 2:
+        expect_eq("exists-agrees", impl("lookup-never-raises", trie.exists, key), key in model, f"exists({key!r})")
+    else:
+        expect_eq("contains-agrees", impl("lookup-never-raises", trie.__contains__, key), key in model, f"{key!r} in trie")
+    return key, "look"
+
+
+def apply_simple(trie, model, op, allowed=(), prev=None):
     """
     Apply one set/del/sete op to the trie (through impl) and to the model.
     With `allowed` (injected faults) a raised allowed exception leaves the model alone
     and is reported as ("faulted").
     """
     kind = op[0]
-    key = resolve_key(op[1], sorted(model))
+    if kind == "look":
+        return apply_look(trie, model, op, prev)
+    key = resolve_key(op[1], sorted(model), prev.get(None) if prev else None)
+    if prev is not None:
+        prev[None] = key
+    if prev is not None and key in model:
+        old = model[key]
+    else:
+        old = None
     if kind == "set":
-        val = resolve_val(op[2], key)
+        val = resolve_val(op[2], key, prev)
+        if prev is not None and old is not None and old != val:
+            prev[key] = old
         fn = trie.__setitem__ if op[3] else trie.set
         r = impl("set-never-raises", fn, key, val, allowed=allowed)
         if isinstance(r, Raised):
@@ -185,11 +211,19 @@ def run_history(case, checks, info, state=None, ops=None, final_sweep=True):
              "aborts": 0, "noop": 0, "merge-delete": 0}
     need_ref = "root" in checks or "prune" in checks
     info.label("prune" if prune else "no-prune")
+    # sparse mode: no automatic look-ups after each step (they would refresh or consume any
+    # per-object state of the trie) - only the look-ups that are part of the generated
+    # history, and one full sweep at the very end
+    sparse = bool(case.get("sparse")) if case is not None else False
+    info.label("sparse-lookups", sparse)
+    prev = {}
+    roots = [(bytes(trie.root_hash), dict(model))]
 
     def after(trie_, model_, touched, outer, prev_branches):
-        ref = RefTrie(model_) if (need_ref or touched is None) else None
-        if "map" in checks:
-            check_map(trie_, model_, touched, info, ref)
+        full = touched is None or touched == "final"
+        ref = RefTrie(model_) if (need_ref or full) else None
+        if "map" in checks and not (sparse and touched != "final"):
+            check_map(trie_, model_, None if full else touched, info, ref)
         nb = prev_branches
         if "root" in checks:
             check_root(trie_, model_, info, ref)
@@ -202,10 +236,22 @@ def run_history(case, checks, info, state=None, ops=None, final_sweep=True):
 
     nb = 0
     for op in ops:
+        if op[0] == "reroot":
+            if prune:
+                continue  # old roots of a pruning trie are gone by design
+            root, old_model = roots[op[1] % len(roots)]
+            trie.root_hash = root
+            model.clear()
+            model.update(old_model)
+            info.label("re-pointed-root")
+            nb = after(trie, model, None, True, nb)
+            continue
         if op[0] != "batch":
             before = len(model)
-            key, what = apply_simple(trie, model, op)
+            key, what = apply_simple(trie, model, op, prev=prev)
             info.label(what)
+            if what == "look":
+                continue
             if what in ("delete", "set-empty"):
                 facts["deletes"] += 1
             if what == "noop-update":
@@ -217,6 +263,7 @@ def run_history(case, checks, info, state=None, ops=None, final_sweep=True):
                 facts["collapse"] += 1
                 info.label("delete-collapses-branch")
             nb = nb2
+            roots.append((bytes(trie.root_hash), dict(model)))
             continue
         _, inner, end = op
         if end >= 0:
@@ -233,8 +280,10 @@ def run_history(case, checks, info, state=None, ops=None, final_sweep=True):
                 aborted = True
                 break
             before = len(bmodel)
-            key, what = apply_simple(b, bmodel, iop)
+            key, what = apply_simple(b, bmodel, iop, prev=prev)
             info.label("in-batch-" + what)
+            if what == "look":
+                continue
             if what in ("delete", "set-empty"):
                 facts["deletes"] += 1
             if what == "set" and before == len(bmodel):
@@ -256,8 +305,9 @@ def run_history(case, checks, info, state=None, ops=None, final_sweep=True):
             model.update(bmodel)
             info.label("batch-committed")
         nb = after(trie, model, None, True, nb)
+        roots.append((bytes(trie.root_hash), dict(model)))
     if final_sweep:
-        after(trie, model, None, True, nb)
+        after(trie, model, "final", True, nb)
     facts["model"] = model
     return facts
 
@@ -265,6 +315,8 @@ def run_history(case, checks, info, state=None, ops=None, final_sweep=True):
 def play(trie, model, ops):
     """Apply a history (simple ops and committed/aborted batches) without any oracle."""
     for op in ops:
+        if op[0] == "reroot":
+            continue
         if op[0] != "batch":
             apply_simple(trie, model, op)
             continue
